@@ -64,6 +64,115 @@ def _fold_int_tuple(e: ast.AST, env: Dict[str, int]):
     raise AnalysisError(f"permutation expression outside the integer-tuple subset: {norm1(e)}")
 
 
+def _loop_smoother_var(lp: ast.For):
+    """(name, order) if the loop binds a smoother element: for s in self.smoothers / enumerate(...) / reversed(...)."""
+    it, tg = lp.iter, lp.target
+    order = "fwd"
+    if isinstance(it, ast.Call) and call_name(it) == "enumerate" and it.args:
+        it = it.args[0]
+        if isinstance(tg, ast.Tuple) and len(tg.elts) == 2:
+            tg = tg.elts[1]
+    if isinstance(it, ast.Call) and call_name(it) == "reversed" and it.args:
+        it, order = it.args[0], "rev"
+    if isinstance(it, ast.Subscript) and norm(it.slice) == "::-1":
+        it, order = it.value, "rev"
+    if norm(it) == "self.smoothers" and isinstance(tg, ast.Name):
+        return tg.id, order
+    return None
+
+
+def _iterate(lp: ast.For, how, axis_expr: ast.AST, N: int):
+    """(smoother index, axis) pairs produced by the loop for N energy axes."""
+    it, tg = lp.iter, lp.target
+    seq = None
+    idxvar = None
+    elem_order = None
+    if isinstance(it, ast.Call) and call_name(it) == "enumerate" and it.args and isinstance(tg, ast.Tuple) and len(tg.elts) == 2:
+        idxvar = tg.elts[0].id if isinstance(tg.elts[0], ast.Name) else None
+        inner = it.args[0]
+        sv = _loop_smoother_var(lp)
+        if sv is None:
+            raise AnalysisError(f"cannot enumerate `{norm1(it)}`")
+        elem_order = sv[1]
+        seq = list(range(N))
+    elif isinstance(it, ast.Call) and call_name(it) in ("range",):
+        seq = list(range(*[_eval_int_n(a, N, {}) for a in it.args]))
+        idxvar = tg.id if isinstance(tg, ast.Name) else None
+    elif isinstance(it, ast.Call) and call_name(it) == "reversed" and it.args and isinstance(it.args[0], ast.Call) \
+            and call_name(it.args[0]) == "range":
+        seq = list(reversed(range(*[_eval_int_n(a, N, {}) for a in it.args[0].args])))
+        idxvar = tg.id if isinstance(tg, ast.Name) else None
+    else:
+        sv = _loop_smoother_var(lp)
+        if sv is None:
+            raise AnalysisError(f"loop `{norm1(it)}` not understood")
+        elem_order = sv[1]
+        seq = list(range(N))
+    out = []
+    for k, i in enumerate(seq):
+        env = {idxvar: i} if idxvar else {}
+        if how[0] == "index":
+            si = _eval_int_n(how[1], N, env)
+        else:
+            si = k if (elem_order or how[1]) == "fwd" else N - 1 - k
+        out.append((si, _eval_int_n(axis_expr, N, env)))
+    return out
+
+
+def _eval_int_n(e: ast.AST, N: int, env) -> int:
+    if isinstance(e, ast.Constant) and isinstance(e.value, int):
+        return e.value
+    if isinstance(e, ast.Name) and e.id in env:
+        return env[e.id]
+    t = norm(e).replace(" ", "")
+    if t in ("self.N_energies", "len(self.smoothers)", "len(self.Energies)"):
+        return N
+    if isinstance(e, ast.UnaryOp) and isinstance(e.op, ast.USub):
+        return -_eval_int_n(e.operand, N, env)
+    if isinstance(e, ast.BinOp) and isinstance(e.op, (ast.Add, ast.Sub)):
+        a, b = _eval_int_n(e.left, N, env), _eval_int_n(e.right, N, env)
+        return a + b if isinstance(e.op, ast.Add) else a - b
+    raise AnalysisError(f"index expression outside the integer subset: {norm1(e)}")
+
+
+def _apply_reorder(e: ast.AST, base: str, axes, env):
+    """Axis order (in terms of the labels in `axes`) of expression e built from the array named `base` by
+    transpose / np.transpose / np.moveaxis / np.swapaxes / .swapaxes (innermost first)."""
+    if isinstance(e, ast.Name):
+        return tuple(axes) if e.id == base else None
+    if isinstance(e, ast.Call):
+        cn = call_name(e)
+        if isinstance(e.func, ast.Attribute) and e.func.attr in ("transpose", "swapaxes") and cn not in ("np.transpose", "np.swapaxes"):
+            inner = _apply_reorder(e.func.value, base, axes, env)
+            args = list(e.args)
+        elif cn in ("np.transpose", "np.moveaxis", "np.swapaxes", "numpy.transpose", "numpy.moveaxis", "numpy.swapaxes"):
+            inner = _apply_reorder(e.args[0], base, axes, env)
+            args = list(e.args[1:])
+        else:
+            return None
+        if inner is None:
+            return None
+        kind = e.func.attr if isinstance(e.func, ast.Attribute) else cn.split(".")[-1]
+        nd = len(inner)
+        if kind == "transpose":
+            perm = _fold_int_tuple(args[0] if len(args) == 1 else ast.Tuple(elts=args), env)
+            if isinstance(perm, int):
+                perm = (perm,)
+            return tuple(inner[j] for j in perm)
+        if kind == "swapaxes":
+            a, b = (_fold_int_tuple(x, env) % nd for x in args[:2])
+            lst = list(inner)
+            lst[a], lst[b] = lst[b], lst[a]
+            return tuple(lst)
+        if kind == "moveaxis":
+            src, dst = (_fold_int_tuple(x, env) % nd for x in args[:2])
+            lst = list(inner)
+            x = lst.pop(src)
+            lst.insert(dst, x)
+            return tuple(lst)
+    return None
+
+
 def run(ctx) -> None:
     idx = ctx.index
 
@@ -71,28 +180,40 @@ def run(ctx) -> None:
     r1 = ctx.rule("R17.1", "dataSmooth chains every axis smoother through one accumulator")
     f = idx.function(ER, "EnergyResult.dataSmooth")
     cfg, du, pm = fctx(f)
-    scalls = [c for c in ast.walk(f.node) if isinstance(c, ast.Call) and isinstance(c.func, ast.Subscript)
-              and norm(c.func.value) == "self.smoothers"]
-    reduce_calls = calls(f.node, "reduce", "functools.reduce")
-    if not scalls and not reduce_calls:
-        raise AnalysisError("dataSmooth: no `self.smoothers[i](…)` call and no reduce(…) found")
     rets = [s for s in stmts(f.node) if isinstance(s, ast.Return)]
     if len(rets) != 1:
         raise AnalysisError("dataSmooth: expected one return")
-    for c in scalls:
+    reduce_calls = calls(f.node, "reduce", "functools.reduce")
+    loops = [s for s in stmts(f.node) if isinstance(s, ast.For)]
+    sm_calls = []  # (call, loop, smoother-index expr or ('elem', k))
+    for lp in loops:
+        seqvar = _loop_smoother_var(lp)
+        for c in ast.walk(lp):
+            if not isinstance(c, ast.Call):
+                continue
+            if isinstance(c.func, ast.Subscript) and norm(c.func.value) == "self.smoothers":
+                sm_calls.append((c, lp, ("index", c.func.slice)))
+            elif isinstance(c.func, ast.Name) and seqvar is not None and c.func.id == seqvar[0]:
+                sm_calls.append((c, lp, ("elem", seqvar[1])))
+    if not sm_calls and not reduce_calls:
+        raise AnalysisError("dataSmooth: no smoother call (`self.smoothers[i](…)`, loop over self.smoothers, reduce) found")
+    for c, loop, how in sm_calls:
         r1.instance(f"{f.short}: {norm1(c)}")
-        loop = enclosing(pm, c, ast.For)
         st = enclosing(pm, c, ast.stmt)
-        if loop is None or not isinstance(loop.target, ast.Name):
-            raise AnalysisError("dataSmooth: smoother call is not inside a `for i in …` loop")
-        i = loop.target.id
-        r1.check(_range_covers_all(loop.iter, "self.N_energies"), "loop visits every energy axis", f, loop,
-                 f"the smoothing loop runs over `{norm1(loop.iter)}`, not over all self.N_energies axes")
         ax = [k.value for k in c.keywords if k.arg == "axis"] + list(c.args[1:2])
-        r1.check(is_name(c.func.slice, i) and bool(ax) and is_name(ax[0], i),
-                 "smoother i is applied along axis i", f, st,
-                 f"smoother index `{norm1(c.func.slice)}` and axis `{norm1(ax[0]) if ax else 'default 0'}` are not both the "
-                 f"loop index `{i}`")
+        # enumerate the (smoother index, axis) pairs the loop produces for N = 1..4 energy axes
+        bad = None
+        for N in range(1, 5):
+            try:
+                pairs = _iterate(loop, how, ax[0] if ax else ast.Constant(0), N)
+            except AnalysisError as e:
+                raise AnalysisError(f"dataSmooth: {e}")
+            if sorted(a for _, a in pairs) != list(range(N)) or any(si != a for si, a in pairs):
+                bad = (N, pairs)
+                break
+        r1.check(bad is None, "for N = 1..4 energy axes the loop applies smoother i along axis i, each axis once", f, st,
+                 f"with {bad[0]} energy axes the loop applies (smoother, axis) = {bad[1]}: a smoother acts on an axis it was not "
+                 f"built for, or an axis is skipped / smoothed twice" if bad else "")
         # accumulator chain
         arg = c.args[0] if c.args else None
         tgt = st.targets[0] if isinstance(st, ast.Assign) and len(st.targets) == 1 else None
@@ -100,7 +221,6 @@ def run(ctx) -> None:
             raise AnalysisError("dataSmooth: smoother result is not assigned to a plain name")
         acc = tgt.id
         if isinstance(arg, ast.Name) and arg.id == acc:
-            # reaching defs of acc at the call: the initial one (before the loop) and the loop-carried one
             defs = du.reaching(acc, cfg.node(st))
             loop_nodes = cfg.in_loop_body(loop)
             init = [d for d in defs if d.node not in loop_nodes]
@@ -116,10 +236,9 @@ def run(ctx) -> None:
             r1.check(okinit, "the chain starts from self.data", f, init[0].stmt if init else st,
                      f"the accumulator `{acc}` does not start from self.data")
         else:
-            r1.violation(f, st, f"the smoother of axis {i} is applied to `{norm1(arg)}` instead of the running result "
+            r1.violation(f, st, f"the smoother is applied to `{norm1(arg)}` instead of the running result "
                          f"`{acc}`: each pass discards the smoothing of the axes processed before it, so only the last "
                          f"processed axis is smoothed")
-        rv = du.resolve_local(rets[0].value, cfg.node(rets[0]))
         r1.check(is_name(rets[0].value, acc), "the accumulated array is returned", f, rets[0],
                  f"dataSmooth returns `{norm1(rets[0].value)}`, not the accumulator `{acc}`")
         r1.check(cfg.dominates(cfg.node(loop), cfg.node(rets[0])), "the loop precedes the return", f, rets[0],
@@ -135,30 +254,35 @@ def run(ctx) -> None:
     r2 = ctx.rule("R17.2", "AbstractSmoother.__call__: axis permutations invert each other; kernel window aligned")
     g = idx.function(SM, "AbstractSmoother.__call__")
     gcfg, gdu, gpm = fctx(g)
-    tr = [c for c in method_calls(g.node, "transpose")]
-    if len(tr) != 2:
-        raise AnalysisError(f"AbstractSmoother.__call__: expected two transposes, found {len(tr)}")
-    r2.instance(f"{g.short}: transposes")
     axis_name = g.node.args.args[2].arg if len(g.node.args.args) > 2 else "axis"
-    pin_e, pout_e = tr[0].args[0], tr[1].args[0]
+    arr_name = g.node.args.args[1].arg
+    # input re-ordering: the statement re-binding the input array; output re-ordering: the return expression
+    inp = [s for s in stmts(g.node) if isinstance(s, ast.Assign) and is_name(s.targets[0], arr_name)]
+    retg = [s for s in stmts(g.node) if isinstance(s, ast.Return)]
+    if len(inp) != 1 or len(retg) != 1:
+        raise AnalysisError("AbstractSmoother.__call__: expected one re-ordering of the input and one return")
+    r2.instance(f"{g.short}: {norm1(inp[0], 70)} … {norm1(retg[0], 70)}")
     bad = None
     n = 0
     for ndim in range(1, 7):
         for axis in range(ndim):
             env = {axis_name: axis, "__ndim__": ndim}
-            p = _fold_int_tuple(pin_e, env)
-            q = _fold_int_tuple(pout_e, env)
+            ident = tuple(range(ndim))
+            p = _apply_reorder(inp[0].value, arr_name, ident, env)       # axes of the working array in terms of input axes
+            q = _apply_reorder(retg[0].value, "res", p, env)             # axes of the returned array in terms of input axes
             n += 1
-            if sorted(p) != list(range(ndim)) or sorted(q) != list(range(ndim)) or p[0] != axis or \
-                    any(p[q[j]] != j for j in range(ndim)):
+            if p is None or q is None:
+                raise AnalysisError("AbstractSmoother.__call__: axis re-ordering is not transpose/moveaxis/swapaxes")
+            if p[0] != axis or q != ident:
                 bad = (ndim, axis, p, q)
                 break
         if bad:
             break
-    r2.check(bad is None, f"output permutation ∘ input permutation = identity for {n} (ndim, axis) pairs, and the "
-             f"smoothed axis is moved to position 0", g, gpm.get(tr[1]) or tr[1],
-             f"for ndim={bad[0]}, axis={bad[1]} the input permutation {bad[2]} followed by the output permutation "
-             f"{bad[3]} does not restore the axis order (smoothing acts on / returns the wrong axis)" if bad else "")
+    r2.check(bad is None, f"the smoothed axis is moved to position 0 and the output restores the input axis order for {n} "
+             f"(ndim, axis) pairs", g, retg[0],
+             f"for ndim={bad[0]}, axis={bad[1]}: the working array has input axes {bad[2]} and the returned array has input axes "
+             f"{bad[3]} instead of {tuple(range(bad[0]))}: smoothing returns the data with permuted axes (or smooths the wrong axis)"
+             if bad else "")
     # kernel window
     td = calls(g.node, "np.tensordot", suffix=False)
     if len(td) != 1:
@@ -262,6 +386,16 @@ SELFTEST = [
     V("kernel window off-centre", SM, "start1 = self.NE1 - (i - start)", "start1 = self.NE1 - (i - start) + 1", "fire", "R17.2"),
     V("void smoother scales its input", SM, "    def __call__(self, A, axis=0):\n        return A\n",
       "    def __call__(self, A, axis=0):\n        return A * 1.0000001\n", "fire", "R17.3"),
+    V("smoothers reversed but axes ascending (seeded C17-m1)", ER,
+      "        for i in range(self.N_energies - 1, -1, -1):\n            data_tmp = self.smoothers[i](data_tmp, axis=i)",
+      "        for i, smoother in enumerate(reversed(self.smoothers)):\n            data_tmp = smoother(data_tmp, axis=i)", "fire", "R17.1"),
+    V("moveaxis in, swapaxes out (seeded C17-m2)", SM, "return res.transpose(tuple(range(1, axis + 1)) + (0,) + tuple(range(axis + 1, A.ndim)))",
+      "return np.swapaxes(res, 0, axis)", "fire", "R17.2"),
+    V("neutral: enumerate over the smoothers", ER,
+      "        for i in range(self.N_energies - 1, -1, -1):\n            data_tmp = self.smoothers[i](data_tmp, axis=i)",
+      "        for i, smoother in enumerate(self.smoothers):\n            data_tmp = smoother(data_tmp, axis=i)", "silent"),
+    V("neutral: moveaxis in and out", SM, "return res.transpose(tuple(range(1, axis + 1)) + (0,) + tuple(range(axis + 1, A.ndim)))",
+      "return np.moveaxis(res, 0, axis)", "silent"),
     V("neutral: ascending loop order", ER, "for i in range(self.N_energies - 1, -1, -1):", "for i in range(self.N_energies):",
       "silent"),
     V("neutral: renamed accumulator", ER,
